@@ -35,11 +35,16 @@ pub enum Op {
     ReopenWrongVersion { v: u64 },
     /// reopen with pre_create_cas_dirs flipped (C19: remembered, not observable)
     ReopenFlipPreCreate,
+    /// a transaction on `k` that stays open across `inner`: put(k) and the first half of the chunks,
+    /// then `inner` on the same handle, then the remaining chunks and finish() (or drop). The map ends
+    /// as if `inner` had run first and the put second. `inner` is a put / remove / remove_range / get /
+    /// checkpoint, never a reopen.
+    PutAround { k: usize, c: usize, chunks: Vec<usize>, abort: bool, inner: Box<Op> },
 }
 
 impl Op {
     pub fn is_mutating(&self) -> bool {
-        matches!(self, Op::Put { .. } | Op::Remove { .. } | Op::RemoveRange { .. } | Op::Checkpoint | Op::Reopen)
+        matches!(self, Op::Put { .. } | Op::PutAround { .. } | Op::Remove { .. } | Op::RemoveRange { .. } | Op::Checkpoint | Op::Reopen)
     }
     pub fn short(&self) -> String {
         match self {
@@ -58,6 +63,7 @@ impl Op {
             Op::ReopenWrongN { n } => format!("reopen-wrong-n({n})"),
             Op::ReopenWrongVersion { v } => format!("reopen-wrong-ver({v})"),
             Op::ReopenFlipPreCreate => "reopen-flip-precreate".into(),
+            Op::PutAround { k, c, chunks, abort, inner } => format!("put(k{k},c{c},{}ch{},around {})", chunks.len(), if *abort { ",abort" } else { "" }, inner.short()),
         }
     }
 }
@@ -123,6 +129,8 @@ pub struct Profile {
     pub w_checkpoint: u64,
     pub w_reopen: u64,
     pub w_c19: u64,
+    /// transactions held open across another call on the same handle (Op::PutAround)
+    pub w_put_around: u64,
     pub big_contents: bool,
     /// allow one content of 128 KiB .. 2.5 MiB (only in run classes that take no snapshots)
     pub huge_contents: bool,
@@ -151,6 +159,7 @@ impl Profile {
             w_checkpoint: 4,
             w_reopen: 0,
             w_c19: 0,
+            w_put_around: 0,
             big_contents: true,
             huge_contents: false,
             big_keys: true,
@@ -323,6 +332,7 @@ pub fn gen_ops(rng: &mut Rng, p: &Profile, nk: usize, contents: &[ContentSpec], 
         sw(rng, p.w_checkpoint),
         p.w_reopen,
         p.w_c19,
+        p.w_put_around,
     ];
     let total: u64 = w.iter().sum();
     let mut sh = Shadow { present: BTreeMap::new(), version: 0 };
@@ -424,6 +434,57 @@ pub fn gen_ops(rng: &mut Rng, p: &Profile, nk: usize, contents: &[ContentSpec], 
                 if rng.chance(1, 5) {
                     ops.push(Op::Reopen);
                 }
+            }
+            10 => {
+                // a transaction kept open across another call; half of the time it carries the bytes
+                // the key holds when it is opened (what a stale "unchanged re-put" shortcut would drop)
+                let c = match sh.present.get(&k) {
+                    Some(&cur) if rng.chance(1, 2) => cur,
+                    _ => rng.below(nc as u64) as usize,
+                };
+                let abort = rng.chance(1, 4);
+                let chunks = gen_chunks(rng, contents[c].size);
+                let k2 = rng.below(nk as u64) as usize;
+                let inner = match rng.below(8) {
+                    0 | 1 => Op::Remove { k },
+                    2 => Op::RemoveRange { lo: B::I(k.min(k2)), hi: B::I(k.max(k2)) },
+                    3 | 4 => {
+                        let c2 = rng.below(nc as u64) as usize;
+                        Op::Put { k, c: c2, chunks: gen_chunks(rng, contents[c2].size), abort: rng.chance(1, 5) }
+                    }
+                    5 => {
+                        let c2 = rng.below(nc as u64) as usize;
+                        Op::Put { k: k2, c: c2, chunks: gen_chunks(rng, contents[c2].size), abort: false }
+                    }
+                    6 => Op::Get { k },
+                    _ => Op::Checkpoint,
+                };
+                match &inner {
+                    Op::Remove { k } => {
+                        if sh.present.remove(k).is_some() {
+                            sh.version += 1;
+                        }
+                    }
+                    Op::RemoveRange { lo, hi } => {
+                        let hit: Vec<usize> = sh.present.keys().copied().filter(|&x| in_range(*lo, *hi, x)).collect();
+                        if !hit.is_empty() {
+                            sh.version += 1;
+                        }
+                        for h in hit {
+                            sh.present.remove(&h);
+                        }
+                    }
+                    Op::Put { k, c, abort: false, .. } => {
+                        sh.present.insert(*k, *c);
+                        sh.version += 1;
+                    }
+                    _ => {}
+                }
+                if !abort {
+                    sh.present.insert(k, c);
+                    sh.version += 1;
+                }
+                ops.push(Op::PutAround { k, c, chunks, abort, inner: Box::new(inner) });
             }
             _ => match rng.below(3) {
                 0 => {
